@@ -62,6 +62,7 @@ type Exec struct {
 	curCallee *ssa.Function
 	curIface types.Type
 	curMethod string
+	cuts int
 }
 
 func newExec(w *World, sp *Specs, fn *ssa.Function, spec *FuncSpec) *Exec {
@@ -190,6 +191,10 @@ func (x *Exec) unbox(st *State, t types.Type, b *Term) Value {
 		ts = append(ts, ufApp(&UF{fmt.Sprintf("unbox_%s_%d", typeID(t), i), []Sort{SInt}, c.Sort}, b))
 	}
 	v, _ := x.rebuild(t, ts)
+	x.typeFactsNoTop(st, v, t)
+	if pv, ok := v.(*PtrV); ok && pv.Kind == PRef {
+		x.assumeIn(st, mkCmp(">=", pv.Ref, mkInt(0)))
+	}
 	return v
 }
 
